@@ -653,7 +653,7 @@ class Run:
             da, db = dim_of(a), dim_of(b)
             if da is not None and db is not None:
                 self.compare_dims(op, a, b, da, db)
-                return Bool(None, None, True)
+                return Bool(None, None, True, (op, a, b))
             if is_top(a) or is_top(b):
                 return Bool(None, None, True)
             return Bool(None)
